@@ -693,7 +693,8 @@ MD_KEYS_OBS = ("nodes_md", "node_md", "all_nodes_md", "edges_md", "edge_md", "al
 NODE_KEYS_OBS = ("nodes", "num_nodes", "inc", "deg", "nbr", "degseq", "degdist", "check_node")
 
 
-def compare_derived(pid, what, kind, obj, expected, universe, ignore_md=True, ignore_nodes=False, ctx=None):
+def compare_derived(pid, what, kind, obj, expected, universe, ignore_md=True, ignore_nodes=False, ctx=None,
+                    ignore_keys=()):
     """Full public observation of a derived object against an expected Model."""
     obs = O.observe(kind, obj, universe, [])
     mobs = expected.observe(universe, [])
@@ -703,6 +704,8 @@ def compare_derived(pid, what, kind, obj, expected, universe, ignore_md=True, ig
         if ignore_md and base in MD_KEYS_OBS:
             return False
         if ignore_nodes and base in NODE_KEYS_OBS:
+            return False
+        if base in ignore_keys:
             return False
         return True
 
